@@ -188,6 +188,14 @@ def check_C09(tier, seed):
     return res
 
 def build_failure(prop, tier, seed, err):
+    """The harness shares Arc<Schema> / Arc<IndexedQuery> across threads (threadsx.rs); if it no longer compiles because they stopped being
+    Send + Sync, that IS the C24 violation."""
+    import props_misc
+    if prop == "C24" and props_misc.threads_build_failure(err):
+        res = Result("C24", tier, seed, "exploration")
+        res.cov.update({"evaluations": 1, "distinct_nontrivial": 2, "rule": "the harness must compile: it requires Schema, IndexedQuery, IRQuery, Type, FieldValue: Send + Sync", "samples": [err[-600:]]})
+        res.violation("schemas / compiled queries are no longer Send + Sync: the thread-sharing harness does not compile", text=err[-1500:], replay={"compiler_output": err[-3000:]})
+        return finish(res)
     return None
 
 def replay(path):
@@ -208,3 +216,4 @@ from props_algebra import *
 from props_engine import *
 from props_sem import *
 from props_schema import *
+from props_misc import *
